@@ -858,7 +858,21 @@ class RefEVM:
         oracle = st.env.get("address_oracle")
         if oracle is None or k >= len(oracle):
             raise Unsupported("no address oracle entry for CREATE")
-        return oracle[k]
+        addr = oracle[k]
+        if op == 0xF5:
+            # CREATE2 (EIP-1014): the address is a function of (sender, salt, init code) and injective in practice.  The
+            # engine's address is taken as an opaque name (A5), but WHICH creations share a name is decided here: equal
+            # parameters -> the same address, different parameters -> different addresses
+            sc, sl = conc(simp(sender160)), conc(simp(salt))
+            if sc is not None and sl is not None:
+                reg = st.env.setdefault("create2_names", {})
+                key = (sc, sl, bytes(init))
+                if key in reg:
+                    return reg[key]
+                if addr in reg.values():
+                    addr = 0xCCCC0000 + k  # the engine re-used a name for different parameters: they do not collide
+                reg[key] = addr
+        return addr
 
     # ---- frame end ---------------------------------------------------------
     def frame_end(self, st: State, kind: str, data: list, work):
